@@ -217,7 +217,7 @@ func PlayCopyBin(scn M, rng *rand.Rand) ([]M, error) {
 			wedged = true
 		}
 	}
-	x.Lis.Close()
+	x.Shutdown()
 	clean := Clean(scn).(map[string]any)
 	delete(clean, "cuts")
 	delete(clean, "bytecuts")
